@@ -838,6 +838,40 @@ func stableFieldLoad(ld *ssa.UnOp) (string, bool) {
 			}
 		}
 	}
+	// a struct parameter copied into its local variable and only read from there
+	if al, isAl := base.(*ssa.Alloc); isAl {
+		var src *ssa.Parameter
+		readOnly := true
+		if refs := al.Referrers(); refs != nil {
+			for _, r := range *refs {
+				switch x := r.(type) {
+				case *ssa.Store:
+					pv, isP := x.Val.(*ssa.Parameter)
+					if x.Addr != ssa.Value(al) || !isP || src != nil {
+						readOnly = false
+					}
+					src = pv
+				case *ssa.FieldAddr:
+					if frefs := x.Referrers(); frefs != nil {
+						for _, rr := range *frefs {
+							if u, isU := rr.(*ssa.UnOp); !isU || u.Op != token.MUL {
+								if _, isDbg := rr.(*ssa.DebugRef); !isDbg {
+									readOnly = false
+								}
+							}
+						}
+					}
+				case *ssa.DebugRef:
+				default:
+					readOnly = false
+				}
+			}
+		}
+		if src != nil && readOnly {
+			return fmt.Sprintf("stable(%s@%p%s)", src.Name(), src, key), true
+		}
+		return "", false
+	}
 	par, ok := base.(*ssa.Parameter)
 	if !ok {
 		return "", false
